@@ -139,6 +139,7 @@ package biscuit
 //@ ensures row_negate[C07]: op.UnaryOpFunc is datalog.Negate ==> err == nil && *res.Kind == pb.OpUnary_Negate
 //@ ensures row_parens[C07]: op.UnaryOpFunc is datalog.Parens ==> err == nil && *res.Kind == pb.OpUnary_Parens
 //@ ensures row_length[C07]: op.UnaryOpFunc is datalog.Length ==> err == nil && *res.Kind == pb.OpUnary_Length
+//@ ensures enc[C07]: err == nil ==> unaryEnc(op, res)
 
 //@ func tokenExprBinaryToProtoExprBinary(op datalog.BinaryOp) (res *pb.OpBinary, err error)
 //@ serves C07 C10 C19
@@ -163,41 +164,60 @@ package biscuit
 //@ ensures row_or[C07]: op.BinaryOpFunc is datalog.Or ==> err == nil && *res.Kind == pb.OpBinary_Or
 //@ ensures row_intersection[C07]: op.BinaryOpFunc is datalog.Intersection ==> err == nil && *res.Kind == pb.OpBinary_Intersection
 //@ ensures row_union[C07]: op.BinaryOpFunc is datalog.Union ==> err == nil && *res.Kind == pb.OpBinary_Union
+//@ ensures enc[C07]: err == nil ==> binaryEnc(op, res)
 
 //@ func tokenExpressionToProtoExpressionV2(input datalog.Expression) (res *pb.ExpressionV2, err error)
 //@ serves C07 C10 C19
 //@ requires exprWF(input)
 //@ modifies nothing
-//@ loop 0 invariant true
+//@ loop 0 invariant pbExpr != nil && fresh(pbExpr) && len(pbExpr.Ops) == len(input) && fresh(arr(pbExpr.Ops))
+//@ loop 0 invariant ops[C07]: forall j int :: { pbExpr.Ops[j] } 0 <= j && j < #i ==> opEnc(input[j], pbExpr.Ops[j])
 //@ ensures err == nil ==> res != nil && fresh(res)
 //@ ensures err != nil ==> res == nil
+//@ ensures enc[C07]: err == nil ==> exprEnc(input, res)
 
 //@ func tokenRuleToProtoRuleV2(input datalog.Rule) (res *pb.RuleV2, err error)
 //@ serves C07 C10 C19
 //@ requires ruleWF(input)
 //@ modifies nothing
-//@ loop 0 invariant true
-//@ loop 1 invariant true
+//@ loop 0 invariant len(pbBody) == len(input.Body) && fresh(arr(pbBody))
+//@ loop 0 invariant body[C07]: forall j int :: { pbBody[j] } 0 <= j && j < #i ==> predEnc(input.Body[j], pbBody[j])
+//@ loop 1 invariant len(pbBody) == len(input.Body) && len(pbExpressions) == len(input.Expressions) && fresh(arr(pbExpressions))
+//@ loop 1 invariant body[C07]: forall j int :: { pbBody[j] } 0 <= j && j < len(input.Body) ==> predEnc(input.Body[j], pbBody[j])
+//@ loop 1 invariant exprs[C07]: forall j int :: { pbExpressions[j] } 0 <= j && j < #i ==> exprEnc(input.Expressions[j], pbExpressions[j])
 //@ ensures err == nil ==> res != nil && fresh(res)
 //@ ensures err != nil ==> res == nil
+//@ ensures enc[C07]: err == nil ==> ruleEnc(input, res)
 
 //@ func tokenCheckToProtoCheckV2(input datalog.Check) (res *pb.CheckV2, err error)
 //@ serves C07 C10 C19
 //@ requires checkWF(input)
 //@ modifies nothing
-//@ loop 0 invariant true
+//@ loop 0 invariant len(pbQueries) == len(input.Queries) && fresh(arr(pbQueries))
+//@ loop 0 invariant queries[C07]: forall j int :: { pbQueries[j] } 0 <= j && j < #i ==> ruleEnc(input.Queries[j], pbQueries[j])
 //@ ensures err == nil ==> res != nil && fresh(res)
 //@ ensures err != nil ==> res == nil
+//@ ensures enc[C07]: err == nil ==> checkEnc(input, res)
 
 //@ func tokenBlockToProtoBlock(input *Block) (res *pb.Block, err error)
 //@ serves C07 C10 C19
 //@ requires blockWF(input)
 //@ modifies nothing
-//@ loop 0 invariant true
-//@ loop 1 invariant true
-//@ loop 2 invariant true
+//@ loop 0 invariant header: out != nil && fresh(out) && out.Symbols == *input.symbols && out.Context != nil && fresh(out.Context) && *out.Context == input.context && out.Version != nil && fresh(out.Version) && *out.Version == input.version
+//@ loop 0 invariant facts == input.facts && fresh(arr(out.FactsV2)) && len(out.RulesV2) == 0 && len(out.ChecksV2) == 0
+//@ loop 0 invariant facts_enc[C07]: len(out.FactsV2) == len(*input.facts) && (forall j int :: { out.FactsV2[j] } 0 <= j && j < #i ==> out.FactsV2[j] != nil && predEnc((*input.facts)[j].Predicate, out.FactsV2[j].Predicate))
+//@ loop 1 invariant header: out != nil && fresh(out) && out.Symbols == *input.symbols && out.Context != nil && fresh(out.Context) && *out.Context == input.context && out.Version != nil && fresh(out.Version) && *out.Version == input.version
+//@ loop 1 invariant fresh(arr(out.RulesV2)) && len(out.ChecksV2) == 0 && len(rules) == len(input.rules) && arr(rules) == arr(input.rules) && off(rules) == off(input.rules)
+//@ loop 1 invariant facts_enc[C07]: len(out.FactsV2) == len(*input.facts) && (forall j int :: { out.FactsV2[j] } 0 <= j && j < len(*input.facts) ==> out.FactsV2[j] != nil && predEnc((*input.facts)[j].Predicate, out.FactsV2[j].Predicate))
+//@ loop 1 invariant rules_enc[C07]: len(out.RulesV2) == len(input.rules) && (forall j int :: { out.RulesV2[j] } 0 <= j && j < #i ==> ruleEnc(input.rules[j], out.RulesV2[j]))
+//@ loop 2 invariant header: out != nil && fresh(out) && out.Symbols == *input.symbols && out.Context != nil && fresh(out.Context) && *out.Context == input.context && out.Version != nil && fresh(out.Version) && *out.Version == input.version
+//@ loop 2 invariant fresh(arr(out.ChecksV2)) && len(checks) == len(input.checks) && arr(checks) == arr(input.checks) && off(checks) == off(input.checks)
+//@ loop 2 invariant facts_enc[C07]: len(out.FactsV2) == len(*input.facts) && (forall j int :: { out.FactsV2[j] } 0 <= j && j < len(*input.facts) ==> out.FactsV2[j] != nil && predEnc((*input.facts)[j].Predicate, out.FactsV2[j].Predicate))
+//@ loop 2 invariant rules_enc[C07]: len(out.RulesV2) == len(input.rules) && (forall j int :: { out.RulesV2[j] } 0 <= j && j < len(input.rules) ==> ruleEnc(input.rules[j], out.RulesV2[j]))
+//@ loop 2 invariant checks_enc[C07]: len(out.ChecksV2) == len(input.checks) && (forall j int :: { out.ChecksV2[j] } 0 <= j && j < #i ==> checkEnc(input.checks[j], out.ChecksV2[j]))
 //@ ensures err == nil ==> res != nil && fresh(res)
 //@ ensures err != nil ==> res == nil
+//@ ensures enc[C07]: err == nil ==> blockEnc(input, res)
 
 // ---------------------------------------------------------------------------
 // signature chain verification (C01)
